@@ -217,6 +217,8 @@ def _eval_cfg(ir: IR, cfgs: T.Dict[str, str]) -> bool:
 
 
 def eval_cfg(raw: str, cfgs: T.Dict[str, str]) -> bool:
-    if raw.startswith('cfg(') and raw.endswith(')'):
+    if raw.startswith('cfg('):
+        if not raw.endswith(')'):
+            raise MesonException(f'malformed cfg expression: {raw!r}')
         return _eval_cfg(parse(lexer(raw[4:-1])), cfgs)
     return False
